@@ -20,3 +20,62 @@ PROPS["C19"] = {
     ],
     "floors": {"any": {"sequences": 1000, "pairs": 390625, "triples": 1000, "random_sequences": 100, "spilled_to_heap": 10}},
 }
+
+_CONG_RULE = ("cases: generated histories (2-7 terms over LSym with multi-slot leaves f/g/h/k/q, binders lam/sum/let/bb, 1-6 unions; families: "
+              "permuted copies, redundancy-making unions, self-referential unions, duplicates, slot variants; shadowing binders in a third of the cases). "
+              "After every operation every ordered pair of inserted terms (and at the end all their subterms) is queried under every relative "
+              "naming and compared with a brute-force ground congruence closure over a finite name pool (|P| >= 3m, m = max over subterms of free names + own binders). ")
+
+PROPS["C01"] = {
+    "rule": _CONG_RULE + "Non-trivial = distinct history (hash of its text) in which >=1 union changed the e-graph and >=1 queried pair with the same "
+            "root operator is unequal in the oracle (there was something to get wrong).",
+    "assumptions": ["the ground closure on a pool of size >= 3m coincides with the true congruence on the universe (DESIGN §3.4); disagreements are re-decided at |P|+2 before being reported"],
+    "quick": [
+        {"variant": "default", "cases": 6000, "params": {"profile": "mix"}, "timeout": 600},
+        {"variant": "explanations", "cases": 1500, "params": {"profile": "mix"}, "timeout": 600},
+    ],
+    "thorough": [
+        {"variant": "default", "cases": 400000, "params": {"profile": "mix"}, "timeout": 3000},
+        {"variant": "default", "cases": 6000, "params": {"profile": "m4"}, "timeout": 3000},
+        {"variant": "checks", "cases": 100000, "params": {"profile": "mix"}, "timeout": 3000},
+        {"variant": "explanations", "cases": 60000, "params": {"profile": "mix"}, "timeout": 3000},
+    ],
+    "floors": {"any": {"queries": 100000, "queries_equal": 10000, "redundancy_events": 10, "symmetry_events": 10, "histories_with_effective_union": 500}},
+}
+PROPS["C02"] = {
+    "rule": _CONG_RULE + "Non-trivial = distinct history in which >=1 union changed the e-graph and >=1 oracle-equal pair is not a reflexive query "
+            "(a consequence had to be found).",
+    "assumptions": ["equalities derived by the ground closure are implied at every pool size, so an 'oracle equal, e-graph unequal' verdict cannot be a false alarm"],
+    "quick": [
+        {"variant": "default", "cases": 6000, "params": {"profile": "mix"}, "timeout": 600},
+        {"variant": "explanations", "cases": 1500, "params": {"profile": "mix"}, "timeout": 600},
+    ],
+    "thorough": [
+        {"variant": "default", "cases": 400000, "params": {"profile": "mix"}, "timeout": 3000},
+        {"variant": "default", "cases": 6000, "params": {"profile": "m4"}, "timeout": 3000},
+        {"variant": "checks", "cases": 100000, "params": {"profile": "mix"}, "timeout": 3000},
+        {"variant": "explanations", "cases": 60000, "params": {"profile": "mix"}, "timeout": 3000},
+    ],
+    "floors": {"any": {"queries": 100000, "queries_equal": 10000, "redundancy_events": 10, "symmetry_events": 10, "histories_with_effective_union": 500}},
+}
+PROPS["C08"] = {
+    "rule": "cases: (mixed) online-generated histories of 8-30 public calls over LSym (add_expr/add_syn_expr of generated terms incl. permuted copies, "
+            "add of hand-built nodes over earlier handles with random bijective slot maps, unions incl. re-invoked handles, rewrite iterations with a random "
+            "rule subset incl. b[x:=t] rules, extraction, e-matching); (hist) declarative add/union histories, minimised on failure. After every call: "
+            "EGraph::check(), every e-node looks up to its class as the identity invocation, no shape in two classes, e-nodes cover class slots, "
+            "find idempotent, alive ids listed, work lists drained (hook). Non-trivial = distinct history (hash of its log) with >=1 redundancy or symmetry event.",
+    "assumptions": ["the structural invariants are those listed in the property statement; EGraph::check is the crate's own checker"],
+    "quick": [
+        {"variant": "default", "cases": 3000, "params": {"mode": "mixed"}, "timeout": 600},
+        {"variant": "default", "cases": 8000, "params": {"mode": "hist"}, "timeout": 600},
+        {"variant": "checks", "cases": 3000, "params": {"mode": "mixed"}, "timeout": 600},
+        {"variant": "checks", "cases": 8000, "params": {"mode": "hist"}, "timeout": 600},
+    ],
+    "thorough": [
+        {"variant": "default", "cases": 200000, "params": {"mode": "mixed", "len_hi": 40}, "timeout": 3000},
+        {"variant": "default", "cases": 600000, "params": {"mode": "hist"}, "timeout": 3000},
+        {"variant": "checks", "cases": 200000, "params": {"mode": "mixed", "len_hi": 40}, "timeout": 3000},
+        {"variant": "checks", "cases": 600000, "params": {"mode": "hist"}, "timeout": 3000},
+    ],
+    "floors": {"any": {"operations": 20000, "invariant_checks": 500000, "redundancy_events": 50, "symmetry_events": 50}},
+}
